@@ -20,3 +20,17 @@ def _write_is_atomic_only(src):
 
 
 const("boot_write_atomic_only", "ant-bootstrap/src/cache_store.rs", _write_is_atomic_only, ty="bool")
+
+
+def _load_has_no_read_bound(src):
+    """load_cache_data reads the whole file: read_to_string on the opened file, no take(..) / fixed-size buffer / size
+    constant in its body (the only limits are the configured peer and address counts, applied by the clean-up)"""
+    m = re.search(r"pub fn load_cache_data\(cfg: &BootstrapCacheConfig\) -> Result<CacheData> \{(.*?)\n    \}\n", src, re.S)
+    if not m:
+        raise ValueError("BootstrapCacheStore::load_cache_data not found")
+    body = m.group(1)
+    bounded = re.search(r"\.take\(|read_exact|\[0u8;|with_capacity|MAX_[A-Z_]*SIZE|\.truncate\(|\.len\(\)\s*[<>]", body)
+    return "read_to_string" in body and not bounded
+
+
+const("boot_load_unbounded_read", "ant-bootstrap/src/cache_store.rs", _load_has_no_read_bound, ty="bool")
